@@ -374,6 +374,13 @@ def creator_case(draw, tier="quick"):
     nlat, nlon = draw(st.integers(3, 8)), draw(st.integers(3, 8))
     lat0, lon0 = draw(st.integers(-60, 40)), draw(st.integers(-150, 100))
     dlat, dlon = draw(st.sampled_from([1, 2, 5])), draw(st.sampled_from([1, 2, 5]))
+    edge = draw(st.sampled_from(["", "", "", "east", "west", "north"]))
+    if edge == "east":
+        lon0 = 180 - (nlon - 1) * dlon  # the grid ends on the antimeridian
+    elif edge == "west":
+        lon0 = -180
+    elif edge == "north":
+        lat0 = 90 - (nlat - 1) * dlat
     lats = [float(lat0 + i * dlat) for i in range(nlat)]
     lons = [float(lon0 + j * dlon) for j in range(nlon)]
     field = [[draw(st.one_of(st.integers(-80, 240).map(lambda k: k / 8), st.integers(-80, 240).map(lambda k: k / 8), st.none()))
@@ -395,6 +402,16 @@ def creator_case(draw, tier="quick"):
         i1, j1 = i0, j0  # a box holding a single grid cell
         bbox = [lons[j0] - draw(off), lats[i0] - draw(off), lons[j0] + draw(off), lats[i0] + draw(off)]
         bbox = [min(bbox[0], bbox[2]), min(bbox[1], bbox[3]), max(bbox[0], bbox[2]), max(bbox[1], bbox[3])]
+    if draw(st.integers(0, 9)) == 0:
+        bbox = [-180.0, -90.0, 180.0, 90.0]  # "everywhere"
+    elif edge and draw(st.booleans()):
+        # the box reaches the edge of the coordinate range
+        if edge == "east":
+            bbox[2] = 180.0
+        elif edge == "west":
+            bbox[0] = -180.0
+        else:
+            bbox[3] = 90.0
     end = start + dtm.timedelta(days=ndays)
     year = draw(st.sampled_from([2000, 2018, 1999]))
     mid_month = draw(st.booleans())
